@@ -258,6 +258,14 @@ func (r *Report) Finish(outDir string, wall float64, writeEvidence bool) int {
 	discharged, total, nontrivial := 0, 0, 0
 	var knownLines, violLines []string
 	replayDir := filepath.Join(outDir, "replay")
+	if writeEvidence {
+		// replay files of earlier runs of this property are stale
+		if old, err := filepath.Glob(filepath.Join(replayDir, r.Prop+"-*.json")); err == nil {
+			for _, f := range old {
+				os.Remove(f)
+			}
+		}
+	}
 	for _, o := range r.Obls {
 		if o.Verdict == "info" {
 			continue
